@@ -311,11 +311,94 @@ def exec_op(name):
     return d, (json.dumps(r, default=repr)[:160])
 
 
-def prepare():
+TESTS_CORPUS = {"classes": 0, "note": "not loaded"}
+
+
+def _etree_to_doc(e):
+    if len(e) == 0 and e.text is not None:
+        return (e.tag, e.text)
+    return (e.tag, [_etree_to_doc(c) for c in e])
+
+
+def tests_corpus_ops(every):
+    """the `etree` sample of every model test class importable from <repo>/tests (about 390 classes)"""
+    import importlib
+    import sys
+    import xml.etree.ElementTree as ET
+    tdir = os.path.join(env.REPO, "tests")
+    ops = []
+    try:
+        if tdir not in sys.path:
+            sys.path.insert(1, tdir)
+        names = sorted(f[:-3] for f in os.listdir(tdir) if f.startswith("test_models_") and f.endswith(".py"))
+        seen = set()
+        k = 0
+        for mod in names:
+            try:
+                m = importlib.import_module(mod)
+            except Exception:      # noqa
+                continue
+            for cname in sorted(vars(m)):
+                cls = vars(m)[cname]
+                if not isinstance(cls, type) or not cname.endswith("TestCase") or cls.__module__ != mod:
+                    continue
+                try:
+                    e = cls.etree
+                except Exception:  # noqa
+                    continue
+                if not isinstance(e, ET.Element):
+                    continue
+                doc = _etree_to_doc(e)
+                key = json.dumps(doc)
+                if key in seen:
+                    continue
+                seen.add(key)
+                k += 1
+                if k % every:
+                    continue
+                ops.append((f"tests:{mod[12:]}.{cname[:-8]}", op_from_etree_raw(doc)))
+        TESTS_CORPUS.update({"classes": len(ops), "note": f"every {every}th of {k} distinct samples from {len(names)} test modules"})
+    except Exception as e:         # noqa
+        TESTS_CORPUS.update({"classes": 0, "note": f"tests corpus not loaded: {type(e).__name__}: {e}"})
+    return ops
+
+
+def op_from_etree_raw(doc):
+    """like op_from_etree but element text is taken verbatim (samples come from ET elements, not markup)"""
+    def fn():
+        import xml.etree.ElementTree as ET
+        from ofxtools.models.base import Aggregate
+
+        def build(d):
+            e = ET.Element(d[0])
+            if isinstance(d[1], str):
+                e.text = d[1]
+            else:
+                for c in d[1]:
+                    e.append(build(c))
+            return e
+        root = build(doc)
+        before = dump_tree(root)
+        inst = Aggregate.from_etree(root)
+        if dump_tree(root) != before:
+            raise K1(f"element tree changed by from_etree({doc[0]})")
+        m = dump_model(inst)
+        out = inst.to_etree()
+        if dump_model(inst) != m:
+            raise K1(f"model instance changed by to_etree({doc[0]})")
+        o1 = dump_tree(out)
+        txt = ET.tostring(out).decode()
+        if dump_tree(out) != o1:
+            raise K1(f"written tree changed by tostring({doc[0]})")
+        return {"model": m, "out": o1, "text": txt}
+    return fn
+
+
+def prepare(tier="quick"):
     """baselines: each operation once, alone, in a pristine forked child (the parent stays pristine)"""
     global OPS, OPS_BY_NAME
     OPS = build_ops()
-    extra = os.environ.get("DST_C17_TESTS_CORPUS") == "1"
+    OPS += tests_corpus_ops(1 if tier == "thorough" else 6)
     OPS_BY_NAME = dict(OPS)
     for nm, fn in OPS:
         r, w = os.pipe()
@@ -463,5 +546,5 @@ def run(ch, index, tier):
 
 
 def extra_coverage(results):
-    return {"operations_in_corpus": len(OPS),
+    return {"operations_in_corpus": len(OPS), "tests_corpus": dict(TESTS_CORPUS),
             "baseline_samples": {k: v[1][:100] for k, v in list(BASELINE.items())[:6]}}
